@@ -87,7 +87,11 @@ class Engine(BaseEngine):
                   [[b"a", b"x" * 40000], [b"b", b"y" * 30000]], [[b"a", b"x" * 40000], [b"b", b"y" * 25000]],
                   [[b"a", b"x" * 65000], [b"b", b"y" * 600]], [[b"a", b"x" * 65000], [b"b", b"y" * 400]],
                   [[b"k", b"v" * 50] for _ in range(1100)], [[b"k", b"v" * 50] for _ in range(1000)],
-                  [[b"a", b"x" * 30000, b"y" * 30000, b"z" * 6000]], [[b"a", b"x" * 30000, b"y" * 30000, b"z" * 5000]]]
+                  [[b"a", b"x" * 30000, b"y" * 30000, b"z" * 6000]], [[b"a", b"x" * 30000, b"y" * 30000, b"z" * 5000]],
+                  # the limit crossed only by what FOLLOWS the last string: trailing empty tags, value-less tags, empty strings
+                  [[b"r", b"a" * 65522], []], [[b"r", b"a" * 65521], []], [[b"r", b"a" * 65518], [], []], [[b"r", b"a" * 65517], [], []],
+                  [[b"r", b"a" * 65520], [b""]], [[b"r", b"a" * 65519], [b""]], [[b"r", b"a" * 65514], [], [b"x"], []],
+                  [[b"r", b"a" * 65521, b""]], [[b"r", b"a" * 65520, b""]], [[], [b"r", b"a" * 65522]], [[], [b"r", b"a" * 65521], []]]
         for ts in shapes:
             cls = "json-fits" if tags_size(ts) <= 65535 else "json-oversize"
             if len(ts) > 100:
